@@ -63,7 +63,29 @@ class MetaSim(mosaik_api_v3.Simulator):
         LOG.append((self.sid, "finalize"))
 
 
-SIM_CONFIG = {"Meta": {"python": "mvf.simple_sim:MetaSim"}}
+SHARED_META = {"api_version": "3.0", "type": "time-based", "models": {}}
+
+
+class SharedMetaSim(MetaSim):
+    """The most common style of in-process simulators: one module-level META handed to Simulator.__init__ (which
+    copies the top level only, so all instances share the model descriptions) and a simulator type chosen by a
+    sim param.  The test fills SHARED_META["models"] before the first start."""
+
+    def __init__(self):
+        mosaik_api_v3.Simulator.__init__(self, SHARED_META)
+        self.sid = None
+        self.eids = []
+        self.steps = 0
+
+    def init(self, sid, time_resolution=1.0, sim_type="time-based", step_size=1, **kw):
+        self.sid = sid
+        self.step_size = step_size
+        self.meta["type"] = sim_type
+        LOG.append((sid, "init", time_resolution))
+        return self.meta
+
+
+SIM_CONFIG = {"Meta": {"python": "mvf.simple_sim:MetaSim"}, "Shared": {"python": "mvf.simple_sim:SharedMetaSim"}}
 
 
 def quiet_world(sim_config=None, **kw):
